@@ -37,7 +37,8 @@ theorem good_ite {p : Prop} [Decidable p] {a b : M St} (ha : p → Good c B a) (
   · exact hb ‹_›
 
 /-- every arm of the `if / elif` chain keeps the limits -/
-theorem execOp_good (fl : Flags) (script : Bytes) (op : RawOp) (fExec : Bool) (h : Pre B st)
+theorem execOp_good (fl : Flags) (script : Bytes) (hlen : script.length ≤ MAX_SCRIPT_SIZE) (op : RawOp)
+    (fExec : Bool) (h : Pre B st)
     (hB : 520 ≤ B) (hB2 : B < 2 ^ 32) (hh : HashesOK c.env.hashes) :
     Good c B (execOp c fl script op fExec st) := by
   unfold execOp
@@ -51,8 +52,8 @@ theorem execOp_good (fl : Flags) (script : Bytes) (op : RawOp) (fExec : Bool) (h
   refine good_ite (fun hx => op2Rot_good h (by rw [hx]; decide)) (fun _ => ?_)
   refine good_ite (fun hx => op2Swap_good h (by rw [hx]; decide)) (fun _ => ?_)
   refine good_ite (fun hx => op3Dup_good h (by rw [hx]; decide)) (fun _ => ?_)
-  refine good_ite (fun hx => checkMultiSig_good fl _ h (by rcases hx with hx | hx <;> rw [hx] <;> decide) hB hB2) (fun _ => ?_)
-  refine good_ite (fun hx => opCheckSig_good script h (by rcases hx with hx | hx <;> rw [hx] <;> decide) hB hB2) (fun _ => ?_)
+  refine good_ite (fun hx => checkMultiSig_good fl _ (by simp only [List.length_drop]; omega) h (by rcases hx with hx | hx <;> rw [hx] <;> decide) hB hB2) (fun _ => ?_)
+  refine good_ite (fun hx => opCheckSig_good script hlen h (by rcases hx with hx | hx <;> rw [hx] <;> decide) hB hB2) (fun _ => ?_)
   refine good_ite (fun hx => opCodeSeparator_good op h) (fun _ => ?_)
   refine good_ite (fun hx => opDepth_good h hB) (fun _ => ?_)
   refine good_ite (fun hx => opDrop_good h (by rw [hx]; decide)) (fun _ => ?_)
@@ -91,12 +92,13 @@ def StepOK (c : Ctx) (B : Nat) : M St → Prop
   | .error (.eval cap) => Lim B cap.stack cap.altstack cap.nOpCount
   | .error (.invalid cap) => Lim B cap.stack cap.altstack cap.nOpCount
   | .error .verify => False
-  | .error (.py _) => c.inIdx < 0
+  | .error (.py cls) => c.Raises cls
 
 /-- `raw_iter` yields data with every push opcode -/
 def OpOK (op : RawOp) : Prop := op.opcode ≤ 0x4e → op.data.isSome
 
-theorem dispatch_good (fl : Flags) (script : Bytes) (op : RawOp) (fExec : Bool) (h : Pre B st) (hop : OpOK op)
+theorem dispatch_good (fl : Flags) (script : Bytes) (hlen : script.length ≤ MAX_SCRIPT_SIZE) (op : RawOp)
+    (fExec : Bool) (h : Pre B st) (hop : OpOK op)
     (hB : 520 ≤ B) (hB2 : B < 2 ^ 32) (hh : HashesOK c.env.hashes) :
     Good c B (dispatch c fl script op fExec st) := by
   unfold dispatch
@@ -114,9 +116,10 @@ theorem dispatch_good (fl : Flags) (script : Bytes) (op : RawOp) (fExec : Bool) 
       rcases List.mem_cons.mp hx with rfl | hx
       · omega
       · exact p3 x hx
-  · exact good_ite (fun _ => execOp_good fl script op fExec h hB hB2 hh) (fun _ => ⟨h.lim, h.2.1⟩)
+  · exact good_ite (fun _ => execOp_good fl script hlen op fExec h hB hB2 hh) (fun _ => ⟨h.lim, h.2.1⟩)
 
-theorem step_ok (fl : Flags) (script : Bytes) (op : RawOp) (h : Pre B st) (hop : OpOK op)
+theorem step_ok (fl : Flags) (script : Bytes) (hlen : script.length ≤ MAX_SCRIPT_SIZE) (op : RawOp) (h : Pre B st)
+    (hop : OpOK op)
     (hB : 520 ≤ B) (hB2 : B < 2 ^ 32) (hh : HashesOK c.env.hashes) :
     StepOK c B (step c fl script op st) := by
   unfold step
@@ -141,7 +144,7 @@ theorem step_ok (fl : Flags) (script : Bytes) (op : RawOp) (h : Pre B st) (hop :
       left; exact ⟨_, rfl, p1, p2, p3, p4⟩
   rcases hcount with ⟨st1, hc1, hp1⟩ | ⟨cap, hc1, hl1⟩
   · simp only [hc1, bind, Except.bind]
-    have hg := dispatch_good (c := c) fl script op (checkExec st.vfExec) hp1 hop hB hB2 hh
+    have hg := dispatch_good (c := c) fl script hlen op (checkExec st.vfExec) hp1 hop hB hB2 hh
     cases hd : dispatch c fl script op (checkExec st.vfExec) st1 with
     | error e =>
       rw [hd] at hg
@@ -155,7 +158,8 @@ theorem step_ok (fl : Flags) (script : Bytes) (op : RawOp) (h : Pre B st) (hop :
       · exact ⟨by simp only [MAX_STACK_SIZE] at hsz; omega, q5, q3, q4⟩
   · simp only [hc1, bind, Except.bind]; exact hl1
 
-theorem loop_ok (fl : Flags) (script : Bytes) (tail : Option IterErr) (ops : List RawOp)
+theorem loop_ok (fl : Flags) (script : Bytes) (hlen : script.length ≤ MAX_SCRIPT_SIZE) (tail : Option IterErr)
+    (ops : List RawOp)
     (hops : ∀ o ∈ ops, OpOK o) (hB : 520 ≤ B) (hB2 : B < 2 ^ 32) (hh : HashesOK c.env.hashes) :
     ∀ st, Pre B st → StepOK c B (loop c fl script tail ops st) := by
   induction ops with
@@ -166,7 +170,7 @@ theorem loop_ok (fl : Flags) (script : Bytes) (tail : Option IterErr) (ops : Lis
     | some e => exact h.lim
   | cons op ops ih =>
     intro st h
-    have hs := step_ok (c := c) fl script op h (hops op (by simp)) hB hB2 hh
+    have hs := step_ok (c := c) fl script hlen op h (hops op (by simp)) hB hB2 hh
     simp only [loop, bind, Except.bind]
     cases hd : step c fl script op st with
     | error e => rw [hd] at hs; cases e <;> exact hs
@@ -180,7 +184,7 @@ def EvalOK (c : Ctx) (B : Nat) : M (List Bytes) → Prop
   | .error (.eval cap) => Lim B cap.stack cap.altstack cap.nOpCount
   | .error (.invalid cap) => Lim B cap.stack cap.altstack cap.nOpCount
   | .error .verify => False
-  | .error (.py _) => c.inIdx < 0
+  | .error (.py cls) => c.Raises cls
 
 theorem evalScriptRaw_ok (fl : Flags) (stack : List Bytes) (script : Bytes) (hs : stack.length ≤ 1000)
     (he : ElemsLe B stack) (hB : 520 ≤ B) (hB2 : B < 2 ^ 32) (hh : HashesOK c.env.hashes) :
@@ -189,7 +193,7 @@ theorem evalScriptRaw_ok (fl : Flags) (stack : List Bytes) (script : Bytes) (hs 
   split_ifs with hsz
   · exact ⟨by simp; omega, by simp, he, fun x hx => by simp at hx⟩
   · have hpre : Pre B ⟨stack, [], [], 0, 0⟩ := ⟨by simp; omega, by simp, he, fun x hx => by simp at hx⟩
-    have hl := loop_ok (c := c) fl script (rawIter script).2 (rawIter script).1
+    have hl := loop_ok (c := c) fl script (by omega) (rawIter script).2 (rawIter script).1
       (fun o ho => rawIter_data script o ho) hB hB2 hh _ hpre
     simp only [bind, Except.bind]
     cases hd : loop c fl script (rawIter script).2 (rawIter script).1 ⟨stack, [], [], 0, 0⟩ with
